@@ -8,6 +8,7 @@ import (
 	"strings"
 	"unicode/utf8"
 
+	"github.com/gobwas/ws"
 	"github.com/gobwas/ws/wsutil"
 )
 
@@ -83,6 +84,24 @@ func genC07a(tier string, r *rng) {
 				parts = append(parts, e)
 			}
 			run(fmt.Sprintf("u8r %s %d %s %s", strings.Join(parts, "/"), r.intn(4), bufsets[r.intn(len(bufsets))], fins[r.intn(len(fins))]))
+		}
+	}
+	// control frames are never subjected to the check: a ping / pong / close-less control payload that is not
+	// UTF-8, between messages and between the fragments of a text message, with checking on
+	for _, server := range []bool{true, false} {
+		st := sideOf(server)
+		for _, op := range []ws.OpCode{ws.OpPing, ws.OpPong} {
+			for _, pl := range [][]byte{{0xff}, {0xc3}, {0xed, 0xa0, 0x80}, r.bytes(20), []byte("ok")} {
+				alone := encodeStream([]gframe{{true, 0, op, pl}, {true, 0, ws.OpText, []byte("z\xc3\xa9")}}, server, r)
+				inside := encodeStream([]gframe{{false, 0, ws.OpText, []byte("a\xc3")}, {true, 0, op, pl}, {true, 0, ws.OpContinuation, []byte("\xa9b")}}, server, r)
+				for _, k := range []int{0, 1} {
+					run(fmt.Sprintf("rm %d %s %d E", st, hx(alone), k))
+					run(fmt.Sprintf("rdd %d T %s %d E 1", st, hx(alone), k))
+					run(fmt.Sprintf("rdr %d utf8 %s %d E nf ra st nf ra st", st, hx(alone), k))
+					run(fmt.Sprintf("rm %d %s %d E", st, hx(inside), k))
+					run(fmt.Sprintf("rdr %d utf8,inter %s %d E nf ra st", st, hx(inside), k))
+				}
+			}
 		}
 	}
 	// all strings of length <= 2
